@@ -358,5 +358,15 @@ def inputs_for_case(rng, case, exhaustive_budget=300, nrandom=25, nmut=40, max_l
                 w2 = list(w)
                 w2[rng.randrange(len(w2))] = "?"
                 ins.append(w2)
+            # ... and after prefixes of longer inputs (the parser is then deep in some state whose
+            # lookahead sets may be merged ones)
+            longer = [w for w in ins if len(w) >= 2 and "?" not in w]
+            seen_f = set()
+            for w in rng.sample(longer, min(12, len(longer))):
+                k = rng.randint(1, len(w))
+                w2 = tuple(w[:k]) + ("?",)
+                if w2 not in seen_f:
+                    seen_f.add(w2)
+                    ins.append(list(w2))
         case.inputs[s] = ins
         case.exh_len[s] = L
